@@ -541,7 +541,28 @@ def r07_10(chk):
     chk.floor("R07.10", 2, "NonScalarDefn / _LeafDefn class-level flags and the partition of WeightedPartitionDefn")
 
 
+def r07_11(chk):
+    chk.rule("R07.11", "a rejected rule changes nothing: _LeafDefn.assign_all validates the setting of EVERY scope group before it writes any of them -- no statement that can reject the rule (`raise`, check_setting_is_valid) is reachable after a store into self.assignments; written group by group, a rule that spans several scopes and is refused for one of them (Bounds: upper < lower on one edge) is left half-applied, the definition is not marked changed, and the function's lnL no longer corresponds to its settings")
+    m = chk.repo.module("recalculation/scope.py")
+    q = "_LeafDefn.assign_all"
+    fn = m.func(q)
+    g = build(fn)
+    stores = [nd for nd in g.nodes if isinstance(getattr(nd, "ast", None), ast.Assign) and any(isinstance(t, ast.Subscript) and norm(t.value) == "self.assignments" for t in nd.ast.targets)]
+    rejects = [nd for nd in g.nodes if isinstance(getattr(nd, "ast", None), ast.Raise)] + g.nodes_containing(lambda x: isinstance(x, ast.Call) and isinstance(x.func, ast.Attribute) and x.func.attr == "check_setting_is_valid")
+    if not stores or not rejects:
+        raise AnalysisError(f"{q}: assignment stores / validation not found")
+    bad = None
+    for st in stores:
+        seen = g.reachable([b for b, kd in st.succ if kd == "n"], kinds=("n",))
+        for r in rejects:
+            if id(r) in seen:
+                bad = (st, r)
+    chk.decide(bad is None, "R07.11", key(m, q, "validate all, then assign"), m.loc(bad[0].ast if bad else fn), f"{len(rejects)} rejecting statement(s), none reachable after a store into self.assignments", f"after `{norm(bad[0].ast)[:50] if bad else ''}` the method can still reach `{norm(bad[1].ast)[:60] if bad else ''}`: a rule refused for a later scope group has already been written for the earlier ones")
+    chk.floor("R07.11", 1, "assign_all")
+
+
 def run(chk):
+    r07_11(chk)
     r07_10(chk)
     r07_9(chk)
     r07_8(chk)
